@@ -389,6 +389,40 @@ def literal_variants(name, m, sv, limit=16):
     return out
 
 
+def table_range_variants(name, m, sv, limit=48):
+    """Valid numbers that carry the endpoints of the module's own range tables (module-level tuples / lists of tuples
+    with digit strings, e.g. the ISMN publisher ranges) at every offset of a documented number, check position repaired:
+    the first / last member of each range is where table lookups go wrong."""
+    ends = []
+
+    def walk(o, depth=0):
+        if isinstance(o, str):
+            if 2 <= len(o) <= 12 and o.isascii() and o.isalnum() and any(c.isdigit() for c in o):
+                ends.append(o)
+        elif isinstance(o, (tuple, list)) and depth < 3 and len(o) <= 400:
+            for x in o:
+                walk(x, depth + 1)
+    for k, val in sorted(vars(m).items()):
+        if not k.startswith('__') and isinstance(val, (tuple, list)) and val and isinstance(val[0], (tuple, list)):
+            walk(val)
+    ends = list(dict.fromkeys(ends))[:40]
+    out = []
+    seeds = [v for s_, v in sv[:2] if isinstance(v, str)]
+    for e in ends:
+        got = 0
+        for v in seeds[:1]:
+            for off in range(0, len(v) - len(e) + 1):
+                t = v[:off] + e + v[off + len(e):]
+                if t == v or got >= 4:
+                    continue
+                for u in _repair(m, t)[:1]:
+                    if u not in out and u != v:
+                        out.append(u)
+                        got += 1
+                        break
+    return out[:limit]
+
+
 def literal_inputs(name, m, sv, limit=1200):
     """Plain states built from the literals of the module's code: the literal put in front of / behind a documented
     number, over its head, and in front of a number that itself starts with the literal (a prefix that is stripped
